@@ -399,12 +399,12 @@ pub fn main(tier: Tier, _replay: Option<String>) -> i32 {
     rep.bounds = json!({"depth": depth, "alphabet": OPS.iter().map(|o| format!("{:?}", o)).collect::<Vec<_>>()});
     rep.rule = "breadth-first search over operation sequences (11-symbol alphabet) on the real pool and chain from a 3-block chain; a state is the history reaching it, deduplicated by the digest of the full observable state; invariants + destructive spendability probe in every state".into();
     rep.assumptions = vec!["u1,u2 are outputs of K1, u3 of K2; transaction A spends u1 (routed to the producer, fee 50,000), A' conflicts on u1, B spends u1+u2, C spends u3".into()];
-    let mut seen: BTreeSet<Hash> = BTreeSet::new();
+    let mut seen: crate::audit::MergeAudit<Vec<Op>> = crate::audit::MergeAudit::new();
     let mut frontier: Vec<Vec<Op>> = vec![vec![]];
     {
         let mut r0 = rep.child();
         if let Some((mut w, _)) = replay(&[], &mut r0, true) {
-            seen.insert(w.p.node.obs().digest());
+            seen.see(w.p.node.obs().digest(), &vec![]);
             invariants(&mut w, &mut r0, &[]);
         }
         rep.merge(r0);
@@ -438,7 +438,7 @@ pub fn main(tier: Tier, _replay: Option<String>) -> i32 {
         for (h, (r, d)) in cands.into_iter().zip(results.into_iter()) {
             rep.merge(r);
             if let Some(d) = d {
-                if seen.insert(d) {
+                if seen.see(d, &h) {
                     next.push(h);
                 }
             }
@@ -447,7 +447,25 @@ pub fn main(tier: Tier, _replay: Option<String>) -> i32 {
         frontier = next;
     }
     rep.states = seen.len() as u64;
-    rep.distinct = seen.iter().map(|h| hex::encode(&h[0..8])).collect();
+    rep.distinct = seen.rep_of.keys().map(|h| hex::encode(&h[0..8])).collect();
+    // canonicalisation audit: merged histories must agree with their representative one step on
+    {
+        let quiet = Report::new("C14", tier.clone(), "model_checking");
+        seen.audit(if tier.thorough { 3000 } else { 400 }, "pool-bfs", |h: &Vec<Op>| {
+            OPS.iter()
+                .map(|op| {
+                    let mut x = h.clone();
+                    x.push(*op);
+                    let mut r = quiet.child();
+                    let d = match replay(&x, &mut r, true) {
+                        Some((w, true)) => Some(w.p.node.obs().digest()),
+                        _ => None,
+                    };
+                    (format!("{:?}", op), d)
+                })
+                .collect()
+        }, &mut rep);
+    }
     rep.sample(json!({"history": ["SubmitB2", "PeerSpendsU1", "Bundle"]}));
     rep.required_outcomes = vec!["bundled".into(), "no-bundle".into(), "reorg".into(), "own-block-failed".into()];
     let _ = VecDeque::<u8>::new();
